@@ -33,7 +33,8 @@ ioprio_set(int which, int who, int ioprio) {
 
 #define IOPRIO_PRIO_CLASS(mask) ((mask) >> IOPRIO_CLASS_SHIFT)
 #define IOPRIO_PRIO_DATA(mask) ((mask) & IOPRIO_PRIO_MASK)
-#define IOPRIO_PRIO_VALUE(class, data) (((class) << IOPRIO_CLASS_SHIFT) | data)
+#define IOPRIO_PRIO_VALUE(class, data) \
+    ((int)(((unsigned int)(class) << IOPRIO_CLASS_SHIFT) | (unsigned int)(data)))
 
 
 // Return a (ioclass, iodata) Python tuple representing process I/O
